@@ -518,12 +518,41 @@ def x_frame_prealloc():
             [("maxBodyPreallocation", "Nat", "0x%X" % value)])
 
 
+def x_schema_type_parser():
+    """C08: the parser of the `type` strings of the schema tables (`map_string_to_cql_type`): nesting limit, how it is
+    tested and passed on, and the table of native type names."""
+    rel = "scylla/src/cluster/metadata/fetching.rs"
+    src = strip_comments(read(rel))
+    depth = one(rel, r"\bconst\s+MAX_CQL_TYPE_NESTING_DEPTH\s*:\s*usize\s*=\s*([0-9_]+)\s*;", "MAX_CQL_TYPE_NESTING_DEPTH", src)
+    fn = block_after(src, r"\bfn\s+parse_cql_type_nested\b[^{]*\{", rel)
+    # the limit is tested as `depth > MAX` on entry, every recursive call passes `depth + 1`, the entry point starts at 0
+    one(rel, r"\bif\s+depth\s*>\s*MAX_CQL_TYPE_NESTING_DEPTH\s*\{", "`if depth > MAX_CQL_TYPE_NESTING_DEPTH`", fn)
+    calls = re.findall(r"\bparse_cql_type_nested\(\s*p\s*,\s*([^)]*)\)", fn)
+    if len(calls) < 7 or any(c.strip() != "depth + 1" for c in calls):
+        raise ExtractError("%s: recursive calls of parse_cql_type_nested are %s (expected >= 7 times `depth + 1`)" % (rel, calls))
+    entry = block_after(src, r"\bfn\s+parse_cql_type\b\s*\([^{]*\{", rel)
+    one(rel, r"\bparse_cql_type_nested\(\s*p\s*,\s*0\s*\)", "parse_cql_type_nested(p, 0)", entry)
+    # the keyword arms, in order
+    kws = re.findall(r"p\.accept\(\s*\"([a-z]+<)\"\s*\)", fn)
+    if kws != ["frozen<", "map<", "list<", "set<", "tuple<", "vector<"]:
+        raise ExtractError("%s: keyword arms of parse_cql_type_nested are %s" % (rel, kws))
+    nat = block_after(block_after(src, r"\bfn\s+parse_native_type\b[^{]*\{", rel), r"\bmatch\s+tok\s*\{", rel)
+    names = re.findall(r"\"([a-z_0-9]+)\"\s*=>\s*NativeType::([A-Za-z0-9_]+)", nat)
+    if len(names) < 20 or len(set(n for n, _ in names)) != len(names):
+        raise ExtractError("%s: native type names of parse_native_type: %s" % (rel, names))
+    table = "[" + ", ".join('("%s", "%s")' % (n, v) for n, v in names) + "]"
+    return ("type strings of the schema tables (map_string_to_cql_type): nesting limit, native names", [rel],
+            [("maxCqlTypeNestingDepth", "Nat", str(parse_int(depth, rel))),
+             ("schemaNativeNames", "List (String × String)", table)])
+
+
 EXTRACTORS_TABLES = [
     x_db_error_codes,
     x_column_type_ids,
     x_result_kinds,
     x_murmur3,
     x_frame_prealloc,
+    x_schema_type_parser,
 ]
 
 # ------------------------------------------------------------------------------------------------
